@@ -31,7 +31,8 @@ LIB_ENTRY = ["execute::run_command_line", "scripting::run_script", "scripting::r
 PANIC_CALLS = {"unwrap", "expect", "index", "index_mut", "remove", "insert", "truncate", "drain", "swap_remove",
                "split_at", "pow", "panic", "panic_fmt", "unreachable_display", "panic_explicit", "split_off",
                "unwrap_err", "expect_err", "copy_from_slice", "panic_display", "assert_failed", "insert_str",
-               "panic_nounwind", "panic_cannot_unwind", "swap", "split_at_mut", "get_unchecked", "unwrap_unchecked"}
+               "panic_nounwind", "panic_cannot_unwind", "swap", "split_at_mut", "get_unchecked", "unwrap_unchecked",
+               "abs", "div_euclid", "rem_euclid", "next_power_of_two", "next_multiple_of"}
 
 # ---------------------------------------------------------------------------------------------
 # audited table: (function path, site description, ordinal) -> reason.  One line each.
@@ -492,6 +493,11 @@ def discharge(ctx, crate, body, bb):
         return False, "drain with a non-literal range", 0
     if ls == "pow":
         return False, "integer pow overflows (debug profile) for large operands", 0
+    if ls in ("abs", "div_euclid", "rem_euclid", "next_power_of_two", "next_multiple_of"):
+        if any(k in sc for k in ("f64", "f32")):
+            return True, "floating point", 0
+        return False, "integer %s inherits the overflow checks of the build: it panics for the minimum value (debug profile); " \
+                      "use the checked_ / wrapping_ / unsigned_ form" % ls, 0
     if ls in ("panic", "panic_fmt", "panic_explicit", "unreachable_display", "panic_display", "assert_failed",
               "panic_nounwind", "panic_cannot_unwind"):
         return False, "explicit panic / unreachable! / assert!", 0
